@@ -33,6 +33,8 @@ def plan(tier, seed):
     other = [c for c in sorted(table) if c not in N.LENGTHS and c != "DE"]
     shards = [{"kind": "nat", "countries": [c], "tier": tier, "_name": f"nat-{c}"} for c in nat]
     shards.append({"kind": "mixed", "countries": nat, "tier": tier, "_name": "nat-mixed"})
+    for i, ch in enumerate(gen.chunk(nat, 4 if tier == "quick" else 11)):
+        shards.append({"kind": "listed", "countries": ch, "tier": tier, "_name": f"nat-listed-{i}"})
     for i, ch in enumerate(gen.chunk(other, 6 if tier == "quick" else 16)):
         shards.append({"kind": "other", "countries": ch, "tier": tier, "_name": f"other-{i}"})
     shards.append({"kind": "contracts", "tier": tier, "_name": "contracts"})
@@ -62,6 +64,7 @@ def judge_one(mon: Mon, S, cc, bban, table, tag):
             mon.viol(f"escape:{name}:{o.exc_name}", w, "library error", o.brief())
     if o_flag.ok != o_val.ok or o_flag.ok != o_bb.ok:
         mon.viol("entry_points_disagree", w, o_flag.brief(), [o_val.brief(), o_bb.brief()])
+    judge.repeated_validation_consistent(mon, text, o_flag, w)
     if o_bb.ok and o_bb.value is not True:
         mon.viol("bban_check_success_not_true", w, True, o_bb.brief())
     if o_val.ok and o_val.value is not True:
@@ -143,6 +146,36 @@ def run_mixed(shard, mon, S, table):
     mon.sample({"mixed_digit_string": D, "countries": order[:5]})
 
 
+def run_listed(shard, mon, S, table):
+    """Every listed bank of the national-algorithm countries (bank records can carry their own algorithm
+    name): a reference-valid BBAN around the bank must be accepted, its twin with another check field rejected."""
+    from vf.props.c12 import build_iban_around  # noqa: PLC0415
+    from vf.ref import lookup  # noqa: PLC0415
+
+    idx = lookup.by_key()
+    cap = 700 if shard["tier"] == "quick" else 10**9
+    for cc in shard["countries"]:
+        spec = table[cc]
+        rng = env.rng("C06", "listed", cc)
+        keys = [k for k in sorted(idx) if k[0] == cc]
+        if len(keys) > cap:
+            keys = rng.sample(keys, cap)
+        for _, code in keys:
+            t = build_iban_around(cc, code, table, rng)
+            if t is None:
+                continue
+            fb = N.force_valid(cc, t[4:])
+            if fb is None or not R.matches_spec(spec["bban_spec"], fb):
+                continue
+            judge_one(mon, S, cc, fb, table, "listed")
+            if cc in N.CHECK_FIELD:
+                s_, e_ = N.CHECK_FIELD[cc]
+                cls = R.position_classes(spec["bban_spec"])[s_]
+                alt = fb[:s_] + "".join(cls[(cls.index(c) + 1) % len(cls)] for c in fb[s_:e_]) + fb[e_:]
+                judge_one(mon, S, cc, alt, table, "listed-twin")
+            mon.tally("listed_banks_judged")
+
+
 def run_other(shard, mon, S, table):
     sz = SIZES[shard["tier"]]
     for cc in shard["countries"]:
@@ -181,6 +214,8 @@ def run_shard(shard, out_base):
         run_nat(shard, mon, S, table)
     elif shard["kind"] == "mixed":
         run_mixed(shard, mon, S, table)
+    elif shard["kind"] == "listed":
+        run_listed(shard, mon, S, table)
     else:
         run_other(shard, mon, S, table)
     # monotonicity is implied by construction (flagged call is only made on plain-valid IBANs for nat
